@@ -364,6 +364,8 @@ def unit_chains(u):
     res = UnitResult()
     typed = u["typed"]
     cases_ = chains.cases(u["seed"], u["count"], typed, start=u.get("start", 0))
+    if u.get("deep") and not typed:
+        cases_ += chains.deep_cases(u.get("start", 0) + len(cases_))
     text = chains.module_text(cases_, typed)
     sigs = chains.typed_sigs() if typed else None
     rtypes = dict(chains.TYPED_RTYPES) if typed else {}
